@@ -185,9 +185,10 @@ class History:
         with History.lock:
             idx = len(self.history)
             self.history.sort(key=operator.itemgetter(0))
-            for idx, item in enumerate(self.history):
+            for i, item in enumerate(self.history):
                 timestamp = item[0]
                 if timestamp > target_time:
+                    idx = i
                     break
             self.history = self.history[:idx]
 
